@@ -438,6 +438,24 @@ pub fn build_case(seed: u64, i: usize, thorough: bool) -> Built {
         plan.faults.push(Fault { call: call.into(), errno, occurrence: 1, suffix: "out.sarif".into() });
         mode = "generated+sarif-fault";
     }
+    // the SARIF target may be something that can be written but not looked at afterwards: a pipe
+    // or socket behind /dev/stdout or a process substitution (realpath gives ENOENT), a file a CI
+    // step moves away at once, a directory that loses its search permission. Nothing in the tool
+    // resolves or re-opens the path today, so these faults fire only if that ever changes.
+    // (own sub-stream: the draws of every other decision stay what they were)
+    if opts.sarif.is_some() {
+        let mut r_after = base.sub("sarif-after-write");
+        if r_after.chance(1, 3) {
+            let kinds: [(&str, &str, i32); 3] = [
+                ("sarif-realpath-enoent", "realpath", libc::ENOENT),
+                ("sarif-realpath-eacces", "realpath", libc::EACCES),
+                ("sarif-reopen-enoent", "open", libc::ENOENT),
+            ];
+            let (k, call, errno) = *r_after.pick(&kinds);
+            configured.push(k.to_string());
+            plan.faults.push(Fault { call: call.into(), errno, occurrence: 1, suffix: "out.sarif".into() });
+        }
+    }
     if r_fault.chance(1, 10) {
         plan.shortread = 1 + r_fault.below(64) as i64;
         configured.push("short-read".into());
